@@ -174,3 +174,62 @@ Theorem C06_drop_collection_no_residue :
 Proof. exact drop_collection_no_residue. Qed.
 Print Assumptions C06_drop_collection_no_residue.
 
+
+(* ---- over whole histories (HistDom.v: every operation in the domain of the state it is applied to) ---- *)
+From Clover Require Import HistDom HistoryProofs.
+
+(* THE invariant: after ANY history of single-transaction operations in the domain, from the empty database, the store is exactly what a well-formed abstract database denotes *)
+Theorem C06_invariant :
+  forall ops : list op,
+         hist_dom empty_db ops ->
+         exists db : sdb, wf_db db /\ R db (durable (snd (run_ops empty_db ops))).
+Proof. exact history_invariant. Qed.
+Print Assumptions C06_invariant.
+
+(* spelled out: the stored counter is the number of documents, ids are unique and equal the _id, every index holds exactly one entry per document under its current value, the catalog is exact *)
+Theorem C06_history_consistent :
+  forall ops : list op,
+         hist_dom empty_db ops ->
+         let s := durable (snd (run_ops empty_db ops)) in
+         exists db : sdb,
+           wf_db db /\
+           R db s /\
+           (forall (c : bytes) (sc : scoll),
+            assoc c db = Some sc ->
+            kv_get (coll_key c) s = Some (SMeta (Z.of_nat (length (sc_docs sc))) (sc_idx sc)) /\
+            NoDup (map fst (sc_docs sc)) /\
+            (forall (id : bytes) (d : obj), assoc id (sc_docs sc) = Some d -> object_id d = id) /\
+            (forall f : bytes,
+             In f (sc_idx sc) ->
+             (forall e : bytes * sval,
+              In e s ->
+              is_prefix (idx_prefix c f) (fst e) = true ->
+              exists (id : bytes) (d : obj),
+                assoc id (sc_docs sc) = Some d /\ e = (idx_key c f (doc_get f d) id, SEmpty)) /\
+             (forall (id : bytes) (d : obj),
+              assoc id (sc_docs sc) = Some d -> In (idx_key c f (doc_get f d) id, SEmpty) s))) /\
+           (forall c : bytes, kv_get (coll_key c) s <> None <-> assoc c db <> None).
+Proof. exact history_consistent. Qed.
+Print Assumptions C06_history_consistent.
+
+(* one step, any operation, open or closed handle *)
+Theorem C06_step_preserves :
+  forall (db : sdb) (h : dbst) (o : op),
+         wf_db db ->
+         Rdb' db h ->
+         (closed h = false -> op_dom db o) -> exists db' : sdb, wf_db db' /\ Rdb' db' (snd (step h o)).
+Proof. exact step_preserves_refinement. Qed.
+Print Assumptions C06_step_preserves.
+
+(* non-vacuity: a concrete 8-operation history (two prefix-related collections, an index, inserts, update, bulk delete through the index, drop index) is in the domain ... *)
+Theorem C06_example_history_in_domain :
+  hist_dom empty_db hx_history.
+Proof. exact hx_history_in_domain. Qed.
+Print Assumptions C06_example_history_in_domain.
+
+(* ... and the theorem applies to it *)
+Theorem C06_example_history_invariant :
+  exists db : sdb, wf_db db /\ R db (durable (snd (run_ops empty_db hx_history))).
+Proof. exact hx_history_invariant. Qed.
+Print Assumptions C06_example_history_invariant.
+
